@@ -56,7 +56,7 @@ def check_scramble(rep, sc, rel):
     def txt(e, env):
         return ast.unparse(resolve(e, env)).replace(' ', '')
     TOTAL = ('numpy.sum(S.sample_sizes)', 'S.sample_sizes.sum()', 'sum(S.sample_sizes)')
-    DPE = ('S._total_per_entry().ravel()', 'S._total_per_entry().flatten()', 'S._total_per_entry().flat')
+    DPE = ('S._total_per_entry().ravel()', 'numpy.ravel(S._total_per_entry())', 'S._total_per_entry().flatten()', 'S._total_per_entry().flat')
     loops = [x for x in stm if isinstance(x, ast.For)]
     if len(loops) != 2 or subject is None:
         raise AnalysisError('scramble_pop_ids: the pooling and re-dealing loops (or the unfolding of a folded input) were not found')
@@ -66,7 +66,7 @@ def check_scramble(rep, sc, rel):
     if isinstance(lp.iter, ast.Call) and dotted(lp.iter.func) == 'zip' and len(lp.iter.args) == 2 and isinstance(lp.target, ast.Tuple) and len(lp.target.elts) == 2 and len(lp.body) == 1:
         pairs = {txt(a, env0): t_.id for a, t_ in zip(lp.iter.args, lp.target.elts) if isinstance(t_, ast.Name)}
         dname = next((v for k, v in pairs.items() if k in DPE), None)
-        cname = pairs.get('S.ravel()') or pairs.get('S.flatten()') or pairs.get('S.flat')
+        cname = pairs.get('S.ravel()') or pairs.get('numpy.ravel(S)') or pairs.get('S.flatten()') or pairs.get('S.flat')
         b = lp.body[0]
         if dname and cname and isinstance(b, ast.AugAssign) and isinstance(b.op, ast.Add) and isinstance(b.target, ast.Subscript) and isinstance(b.target.value, ast.Name) \
                 and ast.unparse(b.target.slice) == dname and ast.unparse(b.value) == cname:
@@ -184,7 +184,7 @@ def run(rep, prog, tier):
     rep.ob('R-FLOW', 'marginalize result', okc and okf, 'labels copied (not aliased), extrap_x carried, folded input handled as fold(marginalize(unfold))', rel, mg.lineno, what='labels/extrap_x/folding survive')
     fp = prog.func(SM, 'Spectrum.filter_pops')
     t = ast.unparse(fp)
-    okp = 'toremove = list(range(0, self.ndim))' in t and 'toremove.remove(pop_ii - 1)' in t and 'return self.marginalize(toremove)' in t and 'for pop_ii in tokeep' in t
+    okp = ('toremove = list(range(0, self.ndim))' in t or 'toremove = list(range(self.ndim))' in t) and 'toremove.remove(pop_ii - 1)' in t and 'return self.marginalize(toremove)' in t and 'for pop_ii in tokeep' in t
     rep.ob('R-IDX', 'Spectrum.filter_pops', okp, 'marginalises the 0-based complement of the 1-based tokeep', rel, fp.lineno, what='filter_pops = marginalize(complement)')
     if 'mask_corners' in positional_params(fp) and 'marginalize(toremove)' in t:
         rep.note('filter_pops accepts mask_corners but does not forward it to marginalize (argument ignored)')
